@@ -11,3 +11,9 @@ opt_hn_t verif_broadcast_shape(sv_t a, sv_t b) { return ix::broadcast_shape(a,b)
 using svb_t = nmtools::utl::static_vector<bool,8>;
 using opt_bto_t = nmtools_maybe<nmtools_tuple<sv_t,svb_t>>;
 opt_bto_t verif_shape_broadcast_to(sv_t a, sv_t b) { return ix::shape_broadcast_to(a,b); }
+// kind F (fixed-size std::array operands): the meta::template_for branch of impl::broadcast_shape
+using a3_t = nmtools_array<nm_size_t,3>;
+using a2_t = nmtools_array<nm_size_t,2>;
+using opt_a3_t = nmtools_maybe<a3_t>;
+opt_a3_t verif_f_broadcast_shape(a3_t a, a3_t b) { return ix::broadcast_shape(a,b); }
+opt_a3_t verif_f_broadcast_shape32(a3_t a, a2_t b) { return ix::broadcast_shape(a,b); }
